@@ -299,7 +299,7 @@ def _strip(d, keys):
 def c11(tier, seed):
     t = 'quick' if tier == 'quick' else 'thorough'
     ev_of = lambda tr: tr['ev']                                              # noqa: E731
-    disp_pair = (lambda scn: _strip(scn, ('kind', 'flavour')), ev_of)
+    disp_pair = (lambda scn: _strip(scn, ('kind', 'flavour')), lambda tr: {'ev': tr['ev'], 'reply': tr.get('reply')})
     stages = []
     for fam in (('c03', 'c12_' + t) if tier == 'quick' else ('c01_' + t, 'c03', 'c12_' + t, 'c02_' + t)):
         st = disp_stage(fam)
